@@ -509,6 +509,7 @@ F20Step ==
         /\ tx.bg = "SchedulePromises"
         /\ \E j \in DOMAIN tx.cmds : /\ tx.cmds[j].k = "UpdateSchedule" /\ tx.cmds[j].rows = 1
                                      /\ Has(pdb.schedules, tx.cmds[j].id)
+                                     /\ pdb.schedules[tx.cmds[j].id].next = tx.cmds[j].last     \* (the guard did hold)
                                      /\ <<tx.cmds[j].id, pdb.schedules[tx.cmds[j].id].createdOn>> \notin GetOr(cyc, "due:" \o tx.o, {})
   /\ NoteFinding("F20")
 IsCommit == Last.e = "commit" /\ ~ F20Step
